@@ -277,11 +277,19 @@ theorem values_stable_put (isSet : Bool) (g : Nat → Nat) {m : Mem} {o : Option
 /-! ## 6. the pooled message: whole histories, buffer growth, reset and reuse, clone -/
 
 /-- **Any sequence of option-editing operations** on a `pool.Message` (byte/string/uint32 setters and adders,
-`SetPath`, `AddQuery`, `Remove`, `ResetOptionsTo` with arbitrary unsorted input, `Reset` followed by reuse), for
-every option capacity, every growth policy of `append` on the option slice (`g`) and on the value buffer (`gb`):
-no step panics with a runtime error, the invariant (`len ≤ cap`, sorted, values inside their buffers and below
-the cursor) is re-established, and the list of `(number, value bytes)` a reader sees equals the reference list
-obtained by folding the specification's step over the same history. -/
+`SetPath`, `AddQuery`, `Remove`, `ResetOptionsTo` with arbitrary unsorted input or with a selection of the message's
+own options, `Reset` followed by reuse), for every option capacity, every growth policy of `append` on the option
+slice (`g`) and on the value buffer (`gb`): the run never ends in a **runtime** panic (index out of range, slice
+bounds: `Msg.run … = .ok _`), the invariant (`len ≤ cap`, sorted, values inside their buffers and below the cursor)
+is re-established, and the list of `(number, value bytes)` a reader sees equals the reference list obtained by
+folding `Spec.SortedMultiset.specStep` over the same history.
+
+What "never panics" does *not* mean here: the typed pool setters call `panic(fmt.Errorf(…))` *on purpose* when the
+wrapped `Options` method refuses (the only reachable case: `SetOptionString`/`AddOptionString` with a Uri-Path value
+over 255 bytes).  `Msg.step` models that deliberate panic as a refusal that the caller recovers from — the message is
+left as the method left it and the history goes on — and `specStep` leaves the list unchanged for it; `SetPath` returns
+its error instead of panicking and is treated the same way.  So the statement is "no runtime error and, after every
+step including refused ones, list = reference", not "no Go `panic` statement is ever executed". -/
 theorem history_refines (g : Nat → Nat) (gb : Nat → Nat → Nat) (ops : List Msg.Op) {r : Msg} (hinv : MsgInv r) :
     ∃ r', Msg.run g gb r ops = .ok r' ∧ MsgInv r' ∧
       items r'.mem r'.opts = ops.foldl specStep (items r.mem r.opts) ∧ Sorted (items r'.mem r'.opts) := by
@@ -302,7 +310,7 @@ history without `Reset` every such view still reads the same bytes, is still ins
 cursor.  (The design's hypothesis "pairwise disjoint" is not needed: below-the-cursor alone suffices, because the
 code only ever writes at or above the cursor or into fresh buffers.) -/
 theorem values_stable (g : Nat → Nat) (gb : Nat → Nat → Nat) (ops : List Msg.Op) {r : Msg} (hinv : MsgInv r)
-    (hnr : Msg.Op.reset ∉ ops) :
+    (hnr : Spec.OptionOp.Op.reset ∉ ops) :
     ∃ r', Msg.run g gb r ops = .ok r' ∧
       ∀ x ∈ r.opts.toList, r'.mem.read x.2 = r.mem.read x.2 ∧ InB r'.mem x.2 ∧ Below r'.vb.bid r'.vb.off x.2 := by
   obtain ⟨r', h1, _, _, h4⟩ := run_spec g gb ops hinv
@@ -373,10 +381,12 @@ theorem selectOwn_range {β : Type} (l : List β) : ∀ n, n ≤ l.length →
     simp only [List.filterMap_cons, List.filterMap_nil, Nat.mod_eq_of_lt hn, List.getElem?_eq_getElem hn]
     rw [List.take_add_one, List.getElem?_eq_getElem hn]; rfl
 
-/-- `ResetOptionsTo` fed from the message's **own** options (a subset, permutation or repetition of `Options()`,
-whose values are views into the message's own value buffer — the aliasing case): the result is the stable sort of
-the selected options with their values byte-exact, because the copies are written at/above the cursor and every
-source lies below it; in particular resetting a message to its own `Options()` is the identity. -/
+/-- `ResetOptionsTo` fed from a selection of the message's **own** options — option structs copied by index (subset,
+permutation or repetition) into a slice of their own, whose *values* are still views into the message's own value
+buffer (value aliasing): the result is the stable sort of the selected options with their values byte-exact, because
+the copies are written at/above the cursor and every source lies below it; selecting every index in order gives the
+list back unchanged.  (Here the input *slice* is a separate array; the case where it is a slice of the message's own
+option array, `m.ResetOptionsTo(m.Options()[k:k+n])`, is `resetOptionsTo_own_slice_benign` below.) -/
 theorem pool_resetSelf_refines (g : Nat → Nat) (gb : Nat → Nat → Nat) {r : Msg} (hinv : MsgInv r) (idxs : List Nat) :
     ∃ r', r.step g gb (.resetSelf idxs) = .ok r' ∧ MsgInv r' ∧
       items r'.mem r'.opts = resetTo (Spec.SortedMultiset.selectOwn (items r.mem r.opts) idxs) ∧
@@ -387,6 +397,40 @@ theorem pool_resetSelf_refines (g : Nat → Nat) (gb : Nat → Nat → Nat) {r :
   show resetTo (Spec.SortedMultiset.selectOwn _ _) = _
   rw [selectOwn_range _ _ (Nat.le_refl _), List.take_length]
   exact resetTo_of_sorted ((mapVal_sorted _).mpr hinv.sorted)
+
+/-- **Array aliasing.** `options.ResetOptionsTo(buf, options[k:k+n])`, where the input is a slice of the receiver's own
+backing array, is modelled with the read index and the write index of the Go loop over one shared array
+(`Options.resetLoopAliased`): iteration `j` reads element `k+j` of the array as it is at that moment, after `j` in-place
+`Add`s.  It is benign: the call behaves exactly like `ResetOptionsTo` on a private copy of those options, because the
+`Add`s so far have touched only indices `< j` (`add_frame`). -/
+theorem resetOptionsTo_own_slice_benign (g : Nat → Nat) (m : Mem) {o : Options View} (hwf : WF o) (buf : Slice) {k n : Nat}
+    (h : k + n ≤ o.len) :
+    Options.resetOptionsToAliased g m o buf k n = Options.resetOptionsTo g m o buf ((o.toList.drop k).take n) :=
+  resetOptionsToAliased_eq g m hwf buf h
+
+/-- … and on a pooled message: `m.ResetOptionsTo(m.Options()[k:k+n])` never panics, keeps the invariant and leaves
+exactly the options `k … k+n-1` of the old list with their values; with `k = 0`, `n = len` it is the identity. -/
+theorem pool_resetOwnSlice_refines (g : Nat → Nat) (gb : Nat → Nat → Nat) {r : Msg} (hinv : MsgInv r) {k n : Nat}
+    (h : k + n ≤ r.opts.len) :
+    ∃ r' e, r.resetOptionsToOwnSlice g gb k n = .ok (r', e) ∧ e = none ∧ MsgInv r' ∧
+      items r'.mem r'.opts = ((items r.mem r.opts).drop k).take n := by
+  rw [resetOptionsToOwnSlice_eq g gb hinv.wf h]
+  have hsub : ∀ x ∈ (r.opts.toList.drop k).take n, x ∈ r.opts.toList :=
+    fun x hx => List.mem_of_mem_drop (List.mem_of_mem_take hx)
+  have hext : ∀ v ∈ ((r.opts.toList.drop k).take n).map (·.2), InB r.mem v ∧ Below r.vb.bid r.vb.off v := by
+    intro v hv
+    obtain ⟨x, hx, rfl⟩ := List.mem_map.mp hv
+    exact hinv.live x (hsub x hx)
+  obtain ⟨r', e, h1, h2, _, h4⟩ := retry_spec gb hinv (contract_reset g ((r.opts.toList.drop k).take n)) hext
+  simp only [Bool.false_eq_true, if_false] at h4
+  refine ⟨r', e, h1, h4.1, h2, ?_⟩
+  rw [h4.2]
+  have e1 : ((r.opts.toList.drop k).take n).map (fun x => (x.1, r.mem.read x.2)) = ((items r.mem r.opts).drop k).take n := by
+    unfold items mapVal; rw [List.map_take, List.map_drop]
+  rw [e1]
+  apply resetTo_of_sorted
+  have hs : Sorted (items r.mem r.opts) := (mapVal_sorted _).mpr hinv.sorted
+  exact List.Pairwise.sublist ((List.take_sublist _ _).trans (List.drop_sublist _ _)) hs
 
 /-! ## Non-vacuity: concrete instances of the hypotheses and of each conclusion -/
 
@@ -426,7 +470,7 @@ set_option maxRecDepth 100000 in
 example : ((Msg.run exG exGb (Msg.new [] 0)
       [.setPath [47, 97, 47, 98], .addBytes 15 [113], .setPath [47, 120], .setUint32 12 50, .remove 15]).map Msg.items)
     = .ok [(11, [120]), (12, [50])] := by decide
-example : [Msg.Op.setPath [47, 97, 47, 98], .addBytes 15 [113], .setPath [47, 120], .setUint32 12 50, .remove 15].foldl specStep []
+example : [Spec.OptionOp.Op.setPath [47, 97, 47, 98], .addBytes 15 [113], .setPath [47, 120], .setUint32 12 50, .remove 15].foldl specStep []
     = [(11, [120]), (12, [50])] := by decide
 -- values set in non-ascending number order (query before path), then the message is reset to its own options
 -- (identity) and to a reordered subset of them
@@ -434,6 +478,10 @@ set_option maxRecDepth 100000 in
 example : ((Msg.run exG exGb (Msg.new [] 2)
       [.addBytes 15 [105, 102], .setUint32 6 42, .setPath [47, 111, 47, 114], .resetSelf [0, 1, 2, 3], .resetSelf [3, 0]]).map Msg.items)
     = .ok [(6, [42]), (15, [105, 102])] := by decide
+-- the input is a slice of the receiver's own array: read index 1.. while the writes go to 0..
+example : ((Options.resetOptionsToAliased exG [[1, 2, 3, 0, 0, 0, 0, 0]]
+      ⟨[(4, ⟨0, 0, 1⟩), (8, ⟨0, 1, 1⟩), (11, ⟨0, 2, 1⟩)], 3⟩ ⟨0, 3, 5⟩ 1 2).map
+        (fun r => r.opts.toList.map (fun x => (x.1, r.mem.read x.2)))) = .ok [(8, [2]), (11, [3])] := by decide
 end Examples
 
 end CoapVerif.Props.C15
@@ -469,4 +517,6 @@ open CoapVerif.Props.C15
 #print axioms pool_clone_refines
 #print axioms selectOwn_range
 #print axioms pool_resetSelf_refines
+#print axioms resetOptionsTo_own_slice_benign
+#print axioms pool_resetOwnSlice_refines
 end Audit
